@@ -1,586 +1,55 @@
 /-
-C08 — retargeting an alignment equals rebuilding it, whatever happened before.  Property theorems.
-Core Lean only.
+C08 — retargeting an alignment equals rebuilding it, whatever happened before.  Property theorems
+(closed forms) and kernel-checked witnesses.  Core Lean only.
 
-The theorems quantify over *every* `Ext` (whatever the numerical fits are), every class, every option
-value, every source and every finite history of `set_target` calls, accepted or rejected.
+Value-level theorems: `Lemmas/C08Value.lean` (histories of `set_target`, both trees, GPA),
+`Lemmas/C08Edits.lean` (objects that are not fresh: stale targets, parameter edits), `Lemmas/C08Frame.lean`
+(what the re-fit reads and writes, and what follows from that alone); heap: `Lemmas/C08Heap.lean`.
 -/
-import MenpoModel.Core.C08Retarget
+import MenpoModel.Lemmas.C08Value
+import MenpoModel.Lemmas.C08Edits
+import MenpoModel.Lemmas.C08Frame
+import MenpoModel.Lemmas.C08Heap
 import MenpoModel.Core.C08Table
 
 namespace MenpoModel.C08
 
 variable {Pts A : Type}
 
-/-! ### overwriting a part of the matrix twice is overwriting it once -/
+/-! ### PROPERTY clause 2: frame and copies, closed forms on the heap -/
 
-theorem setBlock_setBlock (d : Nat) (r r' h : Mat) :
-    setBlock d r' (setBlock d r h) = setBlock d r' h := by
-  funext i j; simp only [setBlock]; split <;> rfl
+/-- PROPERTY clause 2a: no program of `set_target`s (accepted or rejected), `copy`s and parameter edits
+writes an array of coordinates that existed or re-points a `PointCloud` that existed: the caller's point
+sets — source and every target ever passed — read the same afterwards -/
+theorem retarget_frame (e : Ext Pts A) (ops : List Op) (st : Heap Pts × List (HObj A)) (h : WF st.1 st.2)
+    (hok : ∀ op ∈ ops, OpOK st.1 op) :
+    (∀ k, k < st.1.nextArr → (hRun e st ops).1.arr k = st.1.arr k) ∧
+    (∀ r, r < st.1.nextPc → (hRun e st ops).1.pc r = st.1.pc r ∧ (hRun e st ops).1.pts r = st.1.pts r) := by
+  obtain ⟨_, f, _⟩ := hRun_refines e ops st h hok
+  exact ⟨f.arr, fun r hr => ⟨f.pc r hr, f.pts r hr (h.pcs r hr)⟩⟩
 
-theorem setLastCol_setLastCol (d : Nat) (t t' : Nat → Rat) (h : Mat) :
-    setLastCol d t' (setLastCol d t h) = setLastCol d t' h := by
-  funext i j; simp only [setLastCol]; split <;> rfl
+/-- a `set_target` on object `i` is invisible through every other object, copies included -/
+theorem vStep_other (e : Ext Pts A) (pts : Nat → Pts) (os : List (Obj Pts A)) (i r j : Nat) (h : j ≠ i) :
+    (vStep e pts os (.setTarget i r))[j]? = os[j]? := by
+  simp only [vStep]
+  cases os[i]? with
+  | none => rfl
+  | some o => exact List.getElem?_set_ne (fun hh => h hh.symm)
 
-theorem scale_scale (d : Nat) (s s' : Rat) (h : Mat) :
-    setCorner d (fillDiag d s' (setCorner d (fillDiag d s h))) = setCorner d (fillDiag d s' h) := by
-  funext i j; simp only [setCorner, fillDiag]
-  by_cases h1 : i = d ∧ j = d
-  · simp [h1]
-  · by_cases h2 : i = j ∧ i ≤ d
-    · obtain ⟨rfl, hle⟩ := h2
-      have hne : i ≠ d := fun h => h1 ⟨h, h⟩
-      simp [hne, hle]
-    · simp only [h1, h2, if_false]
+/-- … and the addressed object ends up with exactly the point set it was given, when that is accepted -/
+theorem vStep_self (e : Ext Pts A) (pts : Nat → Pts) (os : List (Obj Pts A)) (i r : Nat) (o : Obj Pts A)
+    (hget : os[i]? = some o) :
+    (vStep e pts os (.setTarget i r))[i]? = some (step e o (pts r)) := by
+  obtain ⟨hlt, hval⟩ := List.getElem?_eq_some_iff.mp hget
+  simp only [vStep, hget]
+  rw [List.getElem?_set_self hlt]
 
-/-! ### shapes -/
+/-- a program without parameter edits -/
+def NoEdit : Op → Prop
+  | .edit _ _ _ => False
+  | _ => True
 
-/-- same number of dimensions and of points -/
-def SameShape (e : Ext Pts A) (a b : Pts) : Prop := e.nDims a = e.nDims b ∧ e.nPoints a = e.nPoints b
-
-theorem verifyTarget_ok (e : Ext Pts A) (o : Obj Pts A) (t : Pts) (h : SameShape e t o.target) :
-    verifyTarget e o t = .ok () := by
-  simp [verifyTarget, h.1, h.2]
-
-theorem verifyTarget_ok_iff (e : Ext Pts A) (o : Obj Pts A) (t : Pts) :
-    verifyTarget e o t = .ok () ↔ SameShape e t o.target := by
-  constructor
-  · intro h
-    unfold verifyTarget at h
-    by_cases h1 : e.nDims t = e.nDims o.target
-    · by_cases h2 : e.nPoints t = e.nPoints o.target
-      · exact ⟨h1, h2⟩
-      · simp [h1, h2] at h
-    · simp [h1] at h
-  · exact verifyTarget_ok e o t
-
-theorem verifySourceTarget_ok_iff (e : Ext Pts A) (s t : Pts) :
-    verifySourceTarget e s t = .ok () ↔ SameShape e s t := by
-  constructor
-  · intro h
-    unfold verifySourceTarget at h
-    by_cases h1 : e.nDims s = e.nDims t
-    · by_cases h2 : e.nPoints s = e.nPoints t
-      · exact ⟨h1, h2⟩
-      · simp [h1, h2] at h
-    · simp [h1] at h
-  · intro h; simp [verifySourceTarget, h.1, h.2]
-
-/-! ### PROPERTY clause 3: a target with another number of points or dimensions is rejected,
-and the rejected call changes nothing -/
-
-theorem retarget_rejects_mismatch (e : Ext Pts A) (o : Obj Pts A) (t : Pts)
-    (h : ¬ SameShape e t o.target) :
-    (∃ err, setTarget e o t = .error err) ∧ step e o t = o := by
-  have hv : ∃ err, verifyTarget e o t = .error err := by
-    unfold verifyTarget
-    by_cases h1 : e.nDims t = e.nDims o.target
-    · by_cases h2 : e.nPoints t = e.nPoints o.target
-      · exact absurd ⟨h1, h2⟩ h
-      · exact ⟨.points, by simp [h1, h2]⟩
-    · exact ⟨.dims, by simp [h1]⟩
-  obtain ⟨err, hv⟩ := hv
-  constructor
-  · exact ⟨err, by simp [setTarget, hv]⟩
-  · simp [step, setTarget, hv]
-
-/-- the two kinds of rejection, by cause -/
-theorem retarget_rejects_dims (e : Ext Pts A) (o : Obj Pts A) (t : Pts)
-    (h : e.nDims t ≠ e.nDims o.target) : setTarget e o t = .error .dims := by
-  simp [setTarget, verifyTarget, h]
-
-theorem retarget_rejects_points (e : Ext Pts A) (o : Obj Pts A) (t : Pts)
-    (hd : e.nDims t = e.nDims o.target) (h : e.nPoints t ≠ e.nPoints o.target) :
-    setTarget e o t = .error .points := by
-  simp [setTarget, verifyTarget, hd, h]
-
-/-! ### on which (class, options) a tree remembers everything it must -/
-
-/-- the tree stores every option the class's re-fit needs, and its constructor keeps the target -/
-def Sound (tr : Tree) (c : Cls) (op : Opts) : Prop :=
-  (c = .similarity → tr.remembersRotation = true ∨ op.rotation = true) ∧
-  ((c = .affine ∨ c = .rotation) → tr.ctorKeepsTarget = true)
-
-/-- the repaired tree is sound for every class and every option value -/
-theorem fixed_sound (c : Cls) (op : Opts) : Sound fixed c op :=
-  ⟨fun _ => Or.inl rfl, fun _ => rfl⟩
-
-/-- the tree as found is sound except for `rotation=False` similarities and the affine / rotation classes -/
-theorem coded_sound (c : Cls) (op : Opts) (h1 : c = .similarity → op.rotation = true)
-    (h2 : c ≠ .affine) (h3 : c ≠ .rotation) : Sound coded c op :=
-  ⟨fun hc => Or.inr (h1 hc), fun hc => by rcases hc with hc | hc <;> contradiction⟩
-
-/-! ### one call: `set_target(t')` on a fresh alignment to `t` is the fresh alignment to `t'` -/
-
-theorem build_target (tr : Tree) (e : Ext Pts A) (c : Cls) (op : Opts) (s t : Pts) (o : Obj Pts A)
-    (hs : Sound tr c op) (hb : build tr e c op s t = .ok o) : o.target = t ∧ o.source = s ∧ o.cls = c := by
-  unfold build at hb
-  split at hb
-  · simp at hb
-  · unfold buildCore at hb
-    cases c
-    case affine =>
-      have hk := hs.2 (Or.inl rfl)
-      simp only [hk, if_true, Except.ok.injEq] at hb; subst hb; simp
-    case rotation =>
-      have hk := hs.2 (Or.inr rfl)
-      simp only [hk, if_true, Except.ok.injEq] at hb; subst hb; simp
-    case similarity => simp only [Except.ok.injEq] at hb; subst hb; simp
-    case translation => simp only at hb; split at hb <;> simp at hb; subst hb; simp
-    case uniformScale => simp only at hb; split at hb <;> simp at hb; subst hb; simp
-    case tps => simp only at hb; split at hb <;> simp at hb; subst hb; simp
-    case pwa => simp only at hb; split at hb <;> simp at hb; subst hb; simp
-
-theorem setTarget_build (tr : Tree) (e : Ext Pts A) (c : Cls) (op : Opts) (s t t' : Pts) (o : Obj Pts A)
-    (hs : Sound tr c op) (hb : build tr e c op s t = .ok o) (hsh : SameShape e t' t) :
-    ∃ o', setTarget e o t' = .ok o' ∧ build tr e c op s t' = .ok o' := by
-  have htgt := (build_target tr e c op s t o hs hb).1
-  have hv : verifyTarget e o t' = .ok () := verifyTarget_ok e o t' (by rw [htgt]; exact hsh)
-  refine ⟨sync e { o with target := t' }, by simp [setTarget, hv], ?_⟩
-  unfold build at hb ⊢
-  split at hb
-  · simp at hb
-  · rename_i hst
-    have hst' : verifySourceTarget e s t' = .ok () := by
-      rw [verifySourceTarget_ok_iff] at hst ⊢
-      exact ⟨hst.1.trans hsh.1.symm, hst.2.trans hsh.2.symm⟩
-    simp only [hst']
-    unfold buildCore at hb ⊢
-    cases c
-    case affine =>
-      have hk := hs.2 (Or.inl rfl)
-      simp only [hk, if_true, Except.ok.injEq] at hb ⊢; subst hb; simp [sync]
-    case rotation =>
-      have hk := hs.2 (Or.inr rfl)
-      simp only [hk, if_true, Except.ok.injEq] at hb ⊢; subst hb
-      simp [sync, setBlock_setBlock]
-    case similarity =>
-      simp only [Except.ok.injEq] at hb ⊢; subst hb
-      rcases hs.1 rfl with hr | hr
-      · simp [sync, hr]
-      · by_cases hrr : tr.remembersRotation = true <;> simp [sync, hr, hrr]
-    case translation =>
-      simp only at hb ⊢; split at hb
-      · simp at hb
-      · rename_i hd; simp only [hd, if_false, Except.ok.injEq] at hb ⊢; subst hb
-        simp [sync, setLastCol_setLastCol]
-    case uniformScale =>
-      simp only at hb ⊢; split at hb
-      · simp at hb
-      · rename_i hd; simp only [hd, if_false, Except.ok.injEq] at hb ⊢; subst hb
-        simp [sync, scale_scale]
-    case tps =>
-      simp only at hb ⊢; split at hb
-      · simp at hb
-      · rename_i hd; simp only [hd, if_false, Except.ok.injEq] at hb ⊢; subst hb
-        simp [sync]
-    case pwa =>
-      simp only at hb ⊢; split at hb
-      · simp at hb
-      · rename_i hd; simp only [hd, if_false, Except.ok.injEq] at hb ⊢; subst hb
-        simp [sync]
-
-
-/-! ### PROPERTY clause 1: retargeting equals rebuilding, whatever happened before -/
-
-theorem step_build (tr : Tree) (e : Ext Pts A) (c : Cls) (op : Opts) (s t t' : Pts) (o : Obj Pts A)
-    (hs : Sound tr c op) (hb : build tr e c op s t = .ok o) :
-    (SameShape e t' t → build tr e c op s t' = .ok (step e o t')) ∧
-    (¬ SameShape e t' t → step e o t' = o) := by
-  constructor
-  · intro hsh
-    obtain ⟨o', h1, h2⟩ := setTarget_build tr e c op s t t' o hs hb hsh
-    simp [step, h1, h2]
-  · intro hsh
-    have htgt := (build_target tr e c op s t o hs hb).1
-    exact (retarget_rejects_mismatch e o t' (by rw [htgt]; exact hsh)).2
-
-/-- General form (any tree, on the (class, options) it is sound for): after *any* finite history of
-`set_target` calls — accepted ones and rejected ones, in any order — the object **is** the freshly
-constructed alignment of the same class, with the same options, from the same source to the last
-accepted target.  Equality is of the whole object: stored options, source, target, fitted state. -/
-theorem retarget_eq_rebuild_sound (tr : Tree) (e : Ext Pts A) (c : Cls) (op : Opts) (s : Pts)
-    (hs : Sound tr c op) (ts : List Pts) :
-    ∀ (t0 : Pts) (o0 : Obj Pts A), build tr e c op s t0 = .ok o0 →
-      build tr e c op s (lastAccepted e t0 ts) = .ok (history e o0 ts) := by
-  induction ts with
-  | nil => intro t0 o0 hb; simpa [history, lastAccepted] using hb
-  | cons t ts ih =>
-    intro t0 o0 hb
-    have hstep := step_build tr e c op s t0 t o0 hs hb
-    by_cases hsh : SameShape e t t0
-    · have h1 := hstep.1 hsh
-      have := ih t (step e o0 t) h1
-      simpa [history, lastAccepted, hsh.1, hsh.2] using this
-    · have h2 := hstep.2 hsh
-      have := ih t0 o0 hb
-      have hcond : ¬ (e.nDims t = e.nDims t0 ∧ e.nPoints t = e.nPoints t0) := hsh
-      simpa [history, lastAccepted, hcond, h2] using this
-
-/-- PROPERTY (repaired tree): every class, every option value (rotation on/off, mirroring on/off,
-every kernel, every singular-value floor), every source, every finite history. -/
-theorem retarget_eq_rebuild (e : Ext Pts A) (c : Cls) (op : Opts) (s t0 : Pts) (o0 : Obj Pts A)
-    (hb : build fixed e c op s t0 = .ok o0) (ts : List Pts) :
-    build fixed e c op s (lastAccepted e t0 ts) = .ok (history e o0 ts) :=
-  retarget_eq_rebuild_sound fixed e c op s (fixed_sound c op) ts t0 o0 hb
-
-/-- … in particular same map (fitted state), same target, same aligned source, same remembered options -/
-theorem retarget_same_observables (e : Ext Pts A) (c : Cls) (op : Opts) (s t0 : Pts) (o0 fresh : Obj Pts A)
-    (hb : build fixed e c op s t0 = .ok o0) (ts : List Pts)
-    (hf : build fixed e c op s (lastAccepted e t0 ts) = .ok fresh) :
-    (history e o0 ts).state = fresh.state ∧ (history e o0 ts).target = fresh.target ∧
-    (history e o0 ts).target = lastAccepted e t0 ts ∧
-    (history e o0 ts).source = s ∧
-    alignedSource e (history e o0 ts) = alignedSource e fresh := by
-  have h := retarget_eq_rebuild e c op s t0 o0 hb ts
-  rw [hf] at h
-  simp only [Except.ok.injEq] at h
-  have ht := build_target fixed e c op s _ fresh (fixed_sound c op) hf
-  subst h
-  exact ⟨rfl, rfl, ht.1, ht.2.1, rfl⟩
-
-/-- … and independent of the history: two histories (from possibly different first targets) whose last
-accepted targets agree leave *equal* objects -/
-theorem retarget_history_independent (e : Ext Pts A) (c : Cls) (op : Opts) (s t0 t0' : Pts)
-    (o0 o0' : Obj Pts A) (hb : build fixed e c op s t0 = .ok o0) (hb' : build fixed e c op s t0' = .ok o0')
-    (ts ts' : List Pts) (h : lastAccepted e t0 ts = lastAccepted e t0' ts') :
-    history e o0 ts = history e o0' ts' := by
-  have h1 := retarget_eq_rebuild e c op s t0 o0 hb ts
-  have h2 := retarget_eq_rebuild e c op s t0' o0' hb' ts'
-  rw [h, h2] at h1
-  simpa using h1.symm
-
-/-- when every target of a non-empty history has the right shape, the last accepted one is the last one -/
-theorem lastAccepted_all (e : Ext Pts A) (ts : List Pts) :
-    ∀ (t0 : Pts), (∀ t ∈ ts, SameShape e t t0) → lastAccepted e t0 ts = (t0 :: ts).getLast (by simp) := by
-  induction ts with
-  | nil => intro t0 _; rfl
-  | cons t ts ih =>
-    intro t0 h
-    have ht : SameShape e t t0 := h t (by simp)
-    have h' : ∀ u ∈ ts, SameShape e u t := fun u hu =>
-      ⟨(h u (by simp [hu])).1.trans ht.1.symm, (h u (by simp [hu])).2.trans ht.2.symm⟩
-    simp only [lastAccepted, ht.1, ht.2, and_self, if_true]
-    rw [ih t h']
-    simp [List.getLast_cons]
-
-/-! ### the tree as found: what it does instead, for whatever the fit is -/
-
-/-- finding 6 (universal form): an `AlignmentSimilarity(…, rotation=False)` of the tree as found, once
-retargeted, holds the Procrustes fit **with** rotation — it equals the fresh `rotation=False`
-alignment only if the fit ignores its `rotation` argument. -/
-theorem coded_similarity_forgets_rotation (e : Ext Pts A) (m : Bool) (s t t' : Pts) (o : Obj Pts A)
-    (hb : build coded e .similarity { rotation := false, allowMirror := m } s t = .ok o)
-    (hsh : SameShape e t' t) :
-    ∃ o' fresh, setTarget e o t' = .ok o' ∧
-      build coded e .similarity { rotation := false, allowMirror := m } s t' = .ok fresh ∧
-      o'.state = .hom (e.procrustes true m s t') ∧ fresh.state = .hom (e.procrustes false m s t') := by
-  unfold build at hb
-  split at hb
-  · simp at hb
-  · rename_i hst
-    have hst' : verifySourceTarget e s t' = .ok () := by
-      rw [verifySourceTarget_ok_iff] at hst ⊢
-      exact ⟨hst.1.trans hsh.1.symm, hst.2.trans hsh.2.symm⟩
-    simp only [buildCore, coded, Except.ok.injEq] at hb
-    subst hb
-    have hv : verifyTarget e
-        ({ cls := .similarity, rotation := none, allowMirror := some m, kernel := none, minSV := none,
-           source := s, target := t, state := .hom (e.procrustes false m s t) } : Obj Pts A) t' = .ok () :=
-      verifyTarget_ok e _ t' hsh
-    refine ⟨_, _, by simp [setTarget, hv]; rfl, by simp [build, hst', buildCore, coded]; rfl, ?_, ?_⟩
-    · simp [sync]
-    · rfl
-
-/-- finding 22 (universal form): a fresh `AlignmentAffine` / `AlignmentRotation` of the tree as found
-reports the *aligned source* as its target, a retargeted one the target it was given. -/
-theorem coded_ctor_target_affine (e : Ext Pts A) (op : Opts) (s t : Pts) (o : Obj Pts A)
-    (hb : build coded e .affine op s t = .ok o) :
-    o.target = e.applyHom (e.affineOf s t) s ∧ alignedSource e o = o.target ∧
-    ∀ t' o', setTarget e o t' = .ok o' → o'.target = t' := by
-  unfold build at hb
-  split at hb
-  · simp at hb
-  · simp only [buildCore, coded, Except.ok.injEq] at hb
-    subst hb
-    refine ⟨by simp, by simp [alignedSource], ?_⟩
-    intro t' o' h
-    unfold setTarget at h
-    split at h
-    · simp at h
-    · simp only [Except.ok.injEq] at h; subst h; simp [sync]
-
-theorem coded_ctor_target_rotation (e : Ext Pts A) (op : Opts) (s t : Pts) (o : Obj Pts A)
-    (hb : build coded e .rotation op s t = .ok o) :
-    o.target = e.applyHom (setBlock (e.nDims s) (e.rotationOf op.allowMirror s t) eye) s ∧
-    alignedSource e o = o.target ∧
-    ∀ t' o', setTarget e o t' = .ok o' → o'.target = t' := by
-  unfold build at hb
-  split at hb
-  · simp at hb
-  · simp only [buildCore, coded, Except.ok.injEq] at hb
-    subst hb
-    refine ⟨by simp, by simp [alignedSource], ?_⟩
-    intro t' o' h
-    unfold setTarget at h
-    split at h
-    · simp at h
-    · simp only [Except.ok.injEq] at h; subst h; simp [sync]
-
-
-
-/-! ### PROPERTY clause 2: the heap lemma -/
-
-def cellOf (o : HObj A) : Option Nat :=
-  match o.state with
-  | .hom c => some c
-  | _ => none
-
-/-- every object's matrix cell is allocated, and no two objects share one (what constructors and `copy` establish) -/
-structure WF (hp : Heap Pts) (os : List (HObj A)) : Prop where
-  bound : ∀ (i : Nat) (o : HObj A) (c : Nat), os[i]? = some o → cellOf o = some c → c < hp.next
-  distinct : ∀ (i j : Nat) (oi oj : HObj A) (c : Nat), os[i]? = some oi → os[j]? = some oj →
-    cellOf oi = some c → cellOf oj = some c → i = j
-
-theorem absObj_congr (hp hp' : Heap Pts) (o : HObj A) (hpts : hp'.pts = hp.pts)
-    (hm : ∀ c, cellOf o = some c → hp'.mats c = hp.mats c) : absObj hp' o = absObj hp o := by
-  unfold absObj
-  rw [hpts]
-  cases hst : o.state with
-  | hom c => simp [hm c (by simp [cellOf, hst])]
-  | tps l k => rfl
-  | pwa tv => rfl
-
-/-- what one operation on one object may do to the heap -/
-structure Local (hp hp' : Heap Pts) (o o' : HObj A) : Prop where
-  pts : hp'.pts = hp.pts
-  mono : hp.next ≤ hp'.next
-  frame : ∀ k, k < hp.next → cellOf o ≠ some k → hp'.mats k = hp.mats k
-  cell : ∀ c', cellOf o' = some c' → c' < hp'.next ∧ (cellOf o = some c' ∨ hp.next ≤ c')
-
-theorem updMat_same (m : Nat → Mat) (c : Nat) (v : Mat) : updMat m c v c = v := by simp [updMat]
-theorem updMat_other (m : Nat → Mat) (c k : Nat) (v : Mat) (h : k ≠ c) : updMat m c v k = m k := by
-  simp [updMat, h]
-
-theorem hSync_spec (e : Ext Pts A) (hp : Heap Pts) (o : HObj A)
-    (hb : ∀ c, cellOf o = some c → c < hp.next) :
-    absObj (hSync e hp o).1 (hSync e hp o).2 = sync e (absObj hp o) ∧
-    Local hp (hSync e hp o).1 o (hSync e hp o).2 := by
-  cases hc : o.cls <;> cases hst : o.state <;>
-    simp only [hSync, sync, absObj, hc, hst] <;>
-    refine ⟨?_, ⟨rfl, ?_, ?_, ?_⟩⟩ <;>
-    simp_all [cellOf, updMat]
-  all_goals (intro k h1 h2 h3; first | omega | exact absurd h3.symm h2)
-
-
-theorem hSetTarget_spec (e : Ext Pts A) (hp : Heap Pts) (o : HObj A) (r : Nat)
-    (hb : ∀ c, cellOf o = some c → c < hp.next) :
-    absObj (hSetTarget e hp o r).1 (hSetTarget e hp o r).2 = step e (absObj hp o) (hp.pts r) ∧
-    Local hp (hSetTarget e hp o r).1 o (hSetTarget e hp o r).2 := by
-  unfold hSetTarget step setTarget
-  cases hv : verifyTarget e (absObj hp o) (hp.pts r) with
-  | error err =>
-    refine ⟨rfl, ⟨rfl, Nat.le_refl _, fun _ _ _ => rfl, ?_⟩⟩
-    intro c' hc'
-    exact ⟨hb c' hc', Or.inl hc'⟩
-  | ok u =>
-    cases u
-    have h := hSync_spec e hp { o with target := r } hb
-    exact ⟨h.1.trans rfl, ⟨h.2.pts, h.2.mono, h.2.frame, h.2.cell⟩⟩
-
-theorem hCopy_spec (hp : Heap Pts) (o : HObj A) (_hb : ∀ c, cellOf o = some c → c < hp.next) :
-    absObj (hCopy hp o).1 (hCopy hp o).2 = absObj hp o ∧
-    (hCopy hp o).1.pts = hp.pts ∧ hp.next ≤ (hCopy hp o).1.next ∧
-    (∀ k, k < hp.next → (hCopy hp o).1.mats k = hp.mats k) ∧
-    (∀ c', cellOf (hCopy hp o).2 = some c' → c' < (hCopy hp o).1.next ∧ hp.next ≤ c') := by
-  cases hst : o.state with
-  | hom c =>
-    have hcp : hCopy hp o = ({ hp with mats := updMat hp.mats hp.next (hp.mats c), next := hp.next + 1 },
-               { o with state := .hom hp.next }) := by simp [hCopy, hst]
-    rw [hcp]
-    refine ⟨by simp [absObj, hst, updMat], rfl, by simp, ?_, ?_⟩
-    · intro k hk; have : k ≠ hp.next := by omega
-      simp [updMat, this]
-    · intro c' hc'; simp [cellOf] at hc'; subst hc'; simp
-  | tps l k =>
-    have hcp : hCopy hp o = (hp, o) := by simp [hCopy, hst]
-    rw [hcp]
-    refine ⟨rfl, rfl, Nat.le_refl _, fun _ _ => rfl, ?_⟩
-    intro c' hc'; simp [cellOf, hst] at hc'
-  | pwa tv =>
-    have hcp : hCopy hp o = (hp, o) := by simp [hCopy, hst]
-    rw [hcp]
-    refine ⟨rfl, rfl, Nat.le_refl _, fun _ _ => rfl, ?_⟩
-    intro c' hc'; simp [cellOf, hst] at hc'
-
-
-theorem set_map_congr {α β} (l : List α) (i : Nat) (v : β) (f g : α → β)
-    (h : ∀ (k : Nat) (x : α), k ≠ i → l[k]? = some x → f x = g x) :
-    (l.map f).set i v = (l.map g).set i v := by
-  apply List.ext_getElem?
-  intro k
-  simp only [List.getElem?_set, List.getElem?_map, List.length_map]
-  by_cases hik : i = k
-  · simp [hik]
-  · simp only [hik, if_false]
-    cases hx : l[k]? with
-    | none => rfl
-    | some x => simp [h k x (fun hh => hik hh.symm) hx]
-
-theorem hStep_spec (e : Ext Pts A) (st : Heap Pts × List (HObj A)) (op : Op) (hwf : WF st.1 st.2) :
-    WF (hStep e st op).1 (hStep e st op).2 ∧
-    (hStep e st op).1.pts = st.1.pts ∧
-    (hStep e st op).2.map (absObj (hStep e st op).1) = vStep e st.1.pts (st.2.map (absObj st.1)) op := by
-  obtain ⟨hp, os⟩ := st
-  cases op with
-  | setTarget i r =>
-    simp only [hStep, vStep, List.getElem?_map]
-    cases hget : os[i]? with
-    | none => exact ⟨hwf, rfl, rfl⟩
-    | some o =>
-      simp only [Option.map_some]
-      have hb : ∀ c, cellOf o = some c → c < hp.next := fun c hc => hwf.bound i o c hget hc
-      obtain ⟨habs, hloc⟩ := hSetTarget_spec e hp o r hb
-      generalize hres : hSetTarget e hp o r = res at habs hloc ⊢
-      obtain ⟨hp', o'⟩ := res
-      have hilt : i < os.length := (List.getElem?_eq_some_iff.mp hget).1
-      refine ⟨⟨?_, ?_⟩, hloc.pts, ?_⟩
-      · -- bound
-        intro k ok c hk hc
-        rw [List.getElem?_set] at hk
-        by_cases hik : i = k
-        · simp only [hik, if_true] at hk
-          split at hk
-          · simp only [Option.some.injEq] at hk; subst hk; exact (hloc.cell c hc).1
-          · simp at hk
-        · simp only [hik, if_false] at hk
-          exact Nat.lt_of_lt_of_le (hwf.bound k ok c hk hc) hloc.mono
-      · -- distinct
-        intro k1 k2 o1 o2 c h1 h2 hc1 hc2
-        rw [List.getElem?_set] at h1 h2
-        by_cases hi1 : i = k1
-        · by_cases hi2 : i = k2
-          · exact hi1.symm.trans hi2
-          · simp only [hi1, if_true] at h1
-            simp only [hi2, if_false] at h2
-            split at h1
-            · simp only [Option.some.injEq] at h1; subst h1
-              rcases (hloc.cell c hc1).2 with hold | hnew
-              · exact absurd (hwf.distinct i k2 o o2 c hget h2 hold hc2) hi2
-              · have hlt : c < hp.next := hwf.bound k2 o2 c h2 hc2; omega
-            · simp at h1
-        · by_cases hi2 : i = k2
-          · simp only [hi1, if_false] at h1
-            simp only [hi2, if_true] at h2
-            split at h2
-            · simp only [Option.some.injEq] at h2; subst h2
-              rcases (hloc.cell c hc2).2 with hold | hnew
-              · exact absurd (hwf.distinct i k1 o o1 c hget h1 hold hc1) hi1
-              · have hlt : c < hp.next := hwf.bound k1 o1 c h1 hc1; omega
-            · simp at h2
-          · simp only [hi1, if_false] at h1
-            simp only [hi2, if_false] at h2
-            exact hwf.distinct k1 k2 o1 o2 c h1 h2 hc1 hc2
-      · -- abstraction commutes
-        rw [List.map_set, habs]
-        apply set_map_congr
-        intro k x hki hx
-        apply absObj_congr _ _ _ hloc.pts
-        intro c hc
-        apply hloc.frame c (hwf.bound k x c hx hc)
-        intro hoc
-        exact hki (hwf.distinct k i x o c hx hget hc hoc)
-  | copy i =>
-    simp only [hStep, vStep, List.getElem?_map]
-    cases hget : os[i]? with
-    | none => exact ⟨hwf, rfl, rfl⟩
-    | some o =>
-      simp only [Option.map_some]
-      have hb : ∀ c, cellOf o = some c → c < hp.next := fun c hc => hwf.bound i o c hget hc
-      obtain ⟨habs, hpts, hmono, hframe, hcell⟩ := hCopy_spec hp o hb
-      generalize hres : hCopy hp o = res at habs hpts hmono hframe hcell ⊢
-      obtain ⟨hp', o'⟩ := res
-      refine ⟨⟨?_, ?_⟩, hpts, ?_⟩
-      · intro k ok c hk hc
-        rw [List.getElem?_append] at hk
-        split at hk
-        · exact Nat.lt_of_lt_of_le (hwf.bound k ok c hk hc) hmono
-        · rename_i hlen
-          have : k - os.length = 0 := by
-            cases hkk : k - os.length with
-            | zero => rfl
-            | succ n => rw [hkk] at hk; simp at hk
-          rw [this] at hk; simp only [List.getElem?_cons_zero, Option.some.injEq] at hk
-          subst hk; exact (hcell c hc).1
-      · intro k1 k2 o1 o2 c h1 h2 hc1 hc2
-        rw [List.getElem?_append] at h1 h2
-        have hz : ∀ k (x : HObj A), ¬ k < os.length → [o'][k - os.length]? = some x → k = os.length ∧ x = o' := by
-          intro k x hlt hx
-          cases hkk : k - os.length with
-          | zero => rw [hkk] at hx; simp at hx; exact ⟨by omega, hx.symm⟩
-          | succ n => rw [hkk] at hx; simp at hx
-        split at h1
-        · split at h2
-          · exact hwf.distinct k1 k2 o1 o2 c h1 h2 hc1 hc2
-          · rename_i hlt2
-            obtain ⟨_, rfl⟩ := hz k2 o2 hlt2 h2
-            have hlt : c < hp.next := hwf.bound k1 o1 c h1 hc1
-            have := (hcell c hc2).2; omega
-        · rename_i hlt1
-          obtain ⟨hk1, rfl⟩ := hz k1 o1 hlt1 h1
-          split at h2
-          · have hlt : c < hp.next := hwf.bound k2 o2 c h2 hc2
-            have := (hcell c hc1).2; omega
-          · rename_i hlt2
-            obtain ⟨hk2, _⟩ := hz k2 o2 hlt2 h2
-            omega
-      · rw [List.map_append, List.map_cons, List.map_nil, habs]
-        congr 1
-        apply List.map_congr_left
-        intro x hx
-        obtain ⟨k, hk, rfl⟩ := List.mem_iff_getElem.mp hx
-        apply absObj_congr _ _ _ hpts
-        intro c hc
-        exact hframe c (hwf.bound k _ c (List.getElem?_eq_getElem hk) hc)
-
-
-/-- the heap lemma: a program of `set_target`s and `copy`s over objects that share the caller's point sets
-and write their matrices in place computes exactly what the same program computes on independent
-values; it never writes a point set. -/
-theorem hRun_refines (e : Ext Pts A) (ops : List Op) :
-    ∀ st : Heap Pts × List (HObj A), WF st.1 st.2 →
-      WF (hRun e st ops).1 (hRun e st ops).2 ∧
-      (hRun e st ops).1.pts = st.1.pts ∧
-      (hRun e st ops).2.map (absObj (hRun e st ops).1) = vRun e st.1.pts (st.2.map (absObj st.1)) ops := by
-  induction ops with
-  | nil => intro st h; exact ⟨h, rfl, rfl⟩
-  | cons op ops ih =>
-    intro st h
-    obtain ⟨h1, h2, h3⟩ := hStep_spec e st op h
-    obtain ⟨i1, i2, i3⟩ := ih (hStep e st op) h1
-    refine ⟨i1, i2.trans h2, ?_⟩
-    simp only [hRun, vRun, List.foldl_cons] at i3 ⊢
-    rw [i3, h2, h3]
-
-/-- PROPERTY clause 2a: retargeting never alters the point sets the caller passed in (nor the source:
-`retarget_same_observables`) -/
-theorem retarget_frame (e : Ext Pts A) (ops : List Op) (st : Heap Pts × List (HObj A)) (h : WF st.1 st.2) :
-    (hRun e st ops).1.pts = st.1.pts := (hRun_refines e ops st h).2.1
-
-/-- the object is the fresh alignment (class `c`, options `op`, source `s`) to its own current target -/
-def IsFresh (e : Ext Pts A) (o : Obj Pts A) : Prop :=
-  ∃ c op s, build fixed e c op s o.target = .ok o
-
-theorem step_fresh (e : Ext Pts A) (o : Obj Pts A) (t : Pts) (h : IsFresh e o) : IsFresh e (step e o t) := by
-  obtain ⟨c, op, s, hb⟩ := h
-  have hs := step_build fixed e c op s o.target t o (fixed_sound c op) hb
-  by_cases hsh : SameShape e t o.target
-  · have h1 := hs.1 hsh
-    have ht := (build_target fixed e c op s t _ (fixed_sound c op) h1).1
-    exact ⟨c, op, s, by rw [ht]; exact h1⟩
-  · rw [hs.2 hsh]; exact ⟨c, op, s, hb⟩
-
-theorem vStep_fresh (e : Ext Pts A) (pts : Nat → Pts) (os : List (Obj Pts A)) (op : Op)
+theorem vStep_fresh (e : Ext Pts A) (pts : Nat → Pts) (os : List (Obj Pts A)) (op : Op) (hne : NoEdit op)
     (h : ∀ o ∈ os, IsFresh e o) : ∀ o ∈ vStep e pts os op, IsFresh e o := by
   cases op with
   | setTarget i r =>
@@ -601,255 +70,134 @@ theorem vStep_fresh (e : Ext Pts A) (pts : Nat → Pts) (os : List (Obj Pts A)) 
       rcases List.mem_append.mp hx with hx | hx
       · exact h x hx
       · simp only [List.mem_singleton] at hx; rw [hx]; exact h o (List.mem_of_getElem? hget)
+  | edit i k m => exact absurd hne (by simp [NoEdit])
 
 theorem vRun_fresh (e : Ext Pts A) (pts : Nat → Pts) (ops : List Op) :
-    ∀ os : List (Obj Pts A), (∀ o ∈ os, IsFresh e o) → ∀ o ∈ vRun e pts os ops, IsFresh e o := by
+    ∀ os : List (Obj Pts A), (∀ op ∈ ops, NoEdit op) → (∀ o ∈ os, IsFresh e o) →
+      ∀ o ∈ vRun e pts os ops, IsFresh e o := by
   induction ops with
-  | nil => intro os h; exact h
-  | cons op ops ih => intro os h; exact ih _ (vStep_fresh e pts os op h)
-
-/-- a `set_target` on object `i` is invisible through every other object, copies included -/
-theorem vStep_other (e : Ext Pts A) (pts : Nat → Pts) (os : List (Obj Pts A)) (i r j : Nat) (h : j ≠ i) :
-    (vStep e pts os (.setTarget i r))[j]? = os[j]? := by
-  simp only [vStep]
-  cases os[i]? with
-  | none => rfl
-  | some o => exact List.getElem?_set_ne (fun hh => h hh.symm)
-
-/-- … and the addressed object ends up with exactly the point set it was given, when that is accepted -/
-theorem vStep_self (e : Ext Pts A) (pts : Nat → Pts) (os : List (Obj Pts A)) (i r : Nat) (o : Obj Pts A)
-    (hget : os[i]? = some o) :
-    (vStep e pts os (.setTarget i r))[i]? = some (step e o (pts r)) := by
-  obtain ⟨hlt, hval⟩ := List.getElem?_eq_some_iff.mp hget
-  simp only [vStep, hget]
-  rw [List.getElem?_set_self hlt]
+  | nil => intro os _ h; exact h
+  | cons op ops ih =>
+    intro os hne h
+    exact ih _ (fun o ho => hne o (by simp [ho])) (vStep_fresh e pts os op (hne op (by simp)) h)
 
 /-- PROPERTY clause 2b: copies taken at any point of the history evolve independently.  Starting from
 fresh alignments, after *any* interleaving of `set_target`s on any objects and of `copy`s, every object
 on the heap — original or copy — is the fresh alignment of its class, options and source to *its own*
-current target, and no point set has been written. -/
+current target, and no array of coordinates has been written. -/
 theorem copies_evolve_independently (e : Ext Pts A) (ops : List Op) (st : Heap Pts × List (HObj A))
-    (hwf : WF st.1 st.2) (hfresh : ∀ o ∈ st.2, IsFresh e (absObj st.1 o)) :
-    (hRun e st ops).1.pts = st.1.pts ∧
+    (hwf : WF st.1 st.2) (hok : ∀ op ∈ ops, OpOK st.1 op) (hne : ∀ op ∈ ops, NoEdit op)
+    (hfresh : ∀ o ∈ st.2, IsFresh e (absObj st.1 o)) :
+    Frame st.1 (hRun e st ops).1 ∧
     ∀ o ∈ (hRun e st ops).2, IsFresh e (absObj (hRun e st ops).1 o) := by
-  obtain ⟨_, hpts, habs⟩ := hRun_refines e ops st hwf
-  refine ⟨hpts, ?_⟩
+  obtain ⟨_, hfr, habs⟩ := hRun_refines e ops st hwf hok
+  refine ⟨hfr, ?_⟩
   intro o ho
   have hmem : absObj (hRun e st ops).1 o ∈ (hRun e st ops).2.map (absObj (hRun e st ops).1) :=
     List.mem_map_of_mem ho
   rw [habs] at hmem
-  apply vRun_fresh e st.1.pts ops _ _ _ hmem
+  apply vRun_fresh e st.1.pts ops _ hne _ _ hmem
   intro x hx
   obtain ⟨y, hy, rfl⟩ := List.mem_map.mp hx
   exact hfresh y hy
 
-
-
-/-! ### PROPERTY clause 4: generalized Procrustes analysis without a fixed target -/
-
-theorem similarity_sound (tr : Tree) (op : Opts) (hr : op.rotation = true) : Sound tr .similarity op :=
-  ⟨fun _ => Or.inr hr, fun h => by rcases h with h | h <;> cases h⟩
-
-theorem setAll_buildAll (tr : Tree) (e : Ext Pts A) (op : Opts) (hr : op.rotation = true) (t t' : Pts) :
-    ∀ (sources : List Pts) (ts ts' : List (Obj Pts A)),
-      buildAll tr e op t sources = .ok ts → setAll e t' ts = .ok ts' →
-      buildAll tr e op t' sources = .ok ts' := by
-  intro sources
-  induction sources with
-  | nil =>
-    intro ts ts' hb hs
-    simp only [buildAll, Except.ok.injEq] at hb; subst hb
-    simp only [setAll, Except.ok.injEq] at hs; subst hs
-    rfl
-  | cons s ss ih =>
-    intro ts ts' hb hs
-    simp only [buildAll] at hb
-    cases hbo : build tr e .similarity op s t with
-    | error err => simp [hbo] at hb
-    | ok o =>
-      cases hbs : buildAll tr e op t ss with
-      | error err => simp [hbo, hbs] at hb
-      | ok os =>
-        simp only [hbo, hbs, Except.ok.injEq] at hb; subst hb
-        simp only [setAll] at hs
-        cases hso : setTarget e o t' with
-        | error err => simp [hso] at hs
-        | ok o' =>
-          cases hss : setAll e t' os with
-          | error err => simp [hso, hss] at hs
-          | ok os' =>
-            simp only [hso, hss, Except.ok.injEq] at hs; subst hs
-            have hsound := similarity_sound tr op hr
-            have htgt := (build_target tr e .similarity op s t o hsound hbo).1
-            have hsh : SameShape e t' t := by
-              have hv : verifyTarget e o t' = .ok () := by
-                unfold setTarget at hso
-                split at hso
-                · simp at hso
-                · assumption
-              rw [← htgt]; exact (verifyTarget_ok_iff e o t').mp hv
-            obtain ⟨o'', h1, h2⟩ := setTarget_build tr e .similarity op s t t' o hsound hbo hsh
-            rw [hso] at h1
-            simp only [Except.ok.injEq] at h1; subst h1
-            simp [buildAll, h2, ih os os' hbs hss]
-
-theorem recProcrustes_inv (tr : Tree) (e : Ext Pts A) (g : GpaExt Pts) (initial : Pts) (op : Opts)
-    (hr : op.rotation = true) (sources : List Pts) :
-    ∀ (fuel : Nat) (st r : Gpa Pts A),
-      buildAll tr e op st.target sources = .ok st.transforms →
-      recProcrustes e g initial fuel st = .ok r →
-      buildAll tr e op r.target sources = .ok r.transforms := by
-  intro fuel
-  induction fuel with
-  | zero =>
-    intro st r hb hr'
-    simp only [recProcrustes, Except.ok.injEq] at hr'; subst hr'; exact hb
-  | succ n ih =>
-    intro st r hb hr'
-    simp only [recProcrustes] at hr'
-    split at hr'
-    · simp only [Except.ok.injEq] at hr'; subst hr'; exact hb
-    · split at hr'
-      · simp at hr'
-      · rename_i ts hts
-        exact ih _ r (setAll_buildAll tr e op hr _ _ sources _ _ hb hts) hr'
-
-/-- PROPERTY clause 4: on **every** exit path of the iteration (converged, or `max_iterations` reached, for
-every `max_iterations`), on either tree, the transforms GPA returns are exactly the fresh
-`AlignmentSimilarity(source_i, gpa.target, allow_mirror=…)` of each input shape to the common target it
-reports — whatever the mean / rescale / convergence computations are. -/
-theorem gpa_transforms_are_alignments (tr : Tree) (e : Ext Pts A) (g : GpaExt Pts) (maxIter : Nat)
-    (sources : List Pts) (mirror : Bool) (r : Gpa Pts A)
-    (h : gpa tr e g maxIter sources none mirror = .ok r) :
-    buildAll tr e { rotation := true, allowMirror := mirror } r.target sources = .ok r.transforms := by
-  simp only [gpa] at h
-  split at h
-  · simp at h
-  · rename_i ts hts
-    split at h
-    · simp at h
-    · rename_i r' hr'
-      simp only [Except.ok.injEq] at h; subst h
-      exact recProcrustes_inv tr e g _ _ rfl sources maxIter _ _ hts hr'
-
-/-- element-wise reading of `buildAll` -/
-theorem buildAll_getElem (tr : Tree) (e : Ext Pts A) (op : Opts) (t : Pts) :
-    ∀ (sources : List Pts) (ts : List (Obj Pts A)), buildAll tr e op t sources = .ok ts →
-      ts.length = sources.length ∧
-      ∀ (i : Nat) (s : Pts), sources[i]? = some s → ∃ o, ts[i]? = some o ∧ build tr e .similarity op s t = .ok o := by
-  intro sources
-  induction sources with
-  | nil => intro ts h; simp only [buildAll, Except.ok.injEq] at h; subst h; simp
-  | cons s ss ih =>
-    intro ts h
-    simp only [buildAll] at h
-    cases hbo : build tr e .similarity op s t with
-    | error err => simp [hbo] at h
-    | ok o =>
-      cases hbs : buildAll tr e op t ss with
-      | error err => simp [hbo, hbs] at h
-      | ok os =>
-        simp only [hbo, hbs, Except.ok.injEq] at h; subst h
-        obtain ⟨hl, hi⟩ := ih os hbs
-        refine ⟨by simp [hl], ?_⟩
-        intro i s' hs'
-        cases i with
-        | zero => simp at hs'; subst hs'; exact ⟨o, by simp, hbo⟩
-        | succ k => simp at hs'; simpa using hi k s' hs'
-
-/-- with a fixed target the reported target is the one given, while the transforms stay aligned to the
-last mean shape: the property's restriction "without a fixed target" is needed (remark, not a clause) -/
-theorem gpa_fixed_target_reports_it (tr : Tree) (e : Ext Pts A) (g : GpaExt Pts) (maxIter : Nat)
-    (sources : List Pts) (t : Pts) (mirror : Bool) (r : Gpa Pts A)
-    (h : gpa tr e g maxIter sources (some t) mirror = .ok r) : r.target = t := by
-  simp only [gpa] at h
-  split at h
-  · simp at h
-  · split at h
-    · simp at h
-    · simp only [Except.ok.injEq] at h; subst h; rfl
-
-
-
-
 theorem hBuild_spec (tree : Tree) (e : Ext Pts A) (c : Cls) (op : Opts) (hp : Heap Pts) (sr tr : Nat)
-    (hs : Sound tree c op) (hp' : Heap Pts) (ho : HObj A)
+    (hs : Sound tree c op) (hpcs : ∀ r, r < hp.nextPc → hp.pc r < hp.nextArr)
+    (hsr : sr < hp.nextPc) (htr : tr < hp.nextPc) (hp' : Heap Pts) (ho : HObj A)
     (h : hBuild tree e c op hp sr tr = .ok (hp', ho)) :
-    build tree e c op (hp.pts sr) (hp.pts tr) = .ok (absObj hp' ho) ∧ hp'.pts = hp.pts ∧ WF hp' [ho] := by
+    build tree e c op (hp.pts sr) (hp.pts tr) = .ok (absObj hp' ho) ∧ Frame hp hp' ∧ WF hp' [ho] := by
   unfold hBuild at h
   cases hb : build tree e c op (hp.pts sr) (hp.pts tr) with
   | error err => simp [hb] at h
   | ok o =>
     obtain ⟨ht, hsrc, _⟩ := build_target tree e c op _ _ o hs hb
     simp only [hb] at h
+    have hone : ∀ (hq : Heap Pts) (x : HObj A), hq.nextPc = hp.nextPc → hq.nextArr = hp.nextArr → hq.pc = hp.pc →
+        x.source = sr → x.target = tr → (∀ cc, cellOf x = some cc → cc < hq.next) → WF hq [x] := by
+      intro hq x e1 e2 e3 e4 e5 hcell
+      refine ⟨?_, ?_, ?_, ?_⟩
+      · intro i y cc hi hc
+        cases i with
+        | zero => simp at hi; subst hi; exact hcell cc hc
+        | succ k => simp at hi
+      · intro i j oi oj cc hi hj _ _
+        cases i with
+        | zero => cases j with
+          | zero => rfl
+          | succ k => simp at hj
+        | succ k => simp at hi
+      · intro i y hi
+        cases i with
+        | zero => simp at hi; subst hi; rw [e4, e5, e1]; exact ⟨hsr, htr⟩
+        | succ k => simp at hi
+      · intro r hr; rw [e3, e2]; exact hpcs r (by rw [← e1]; exact hr)
     cases hst : o.state with
     | hom m =>
       simp only [hst, Except.ok.injEq, Prod.mk.injEq] at h
       obtain ⟨rfl, rfl⟩ := h
-      refine ⟨?_, rfl, ⟨?_, ?_⟩⟩
+      refine ⟨?_, Frame.of_eq rfl rfl rfl rfl, hone _ _ rfl rfl rfl rfl rfl ?_⟩
       · congr 1
-        cases o; simp_all [absObj, updMat]
-      · intro i x cc hi hc
-        cases i with
-        | zero => simp at hi; subst hi; simp [cellOf] at hc; subst hc; simp
-        | succ k => simp at hi
-      · intro i j oi oj cc hi hj _ _
-        cases i with
-        | zero => cases j with
-          | zero => rfl
-          | succ k => simp at hj
-        | succ k => simp at hi
+        cases o; simp_all [absObj, updMat, Heap.pts]
+      · intro cc hc; simp [cellOf] at hc; subst hc; simp
     | tps l k =>
       simp only [hst, Except.ok.injEq, Prod.mk.injEq] at h
       obtain ⟨rfl, rfl⟩ := h
-      refine ⟨?_, rfl, ⟨?_, ?_⟩⟩
+      refine ⟨?_, Frame.refl _, hone _ _ rfl rfl rfl rfl rfl ?_⟩
       · congr 1
-        cases o; simp_all [absObj]
-      · intro i x cc hi hc
-        cases i with
-        | zero => simp at hi; subst hi; simp [cellOf] at hc
-        | succ k => simp at hi
-      · intro i j oi oj cc hi hj _ _
-        cases i with
-        | zero => cases j with
-          | zero => rfl
-          | succ k => simp at hj
-        | succ k => simp at hi
+        cases o; simp_all [absObj, Heap.pts]
+      · intro cc hc; simp [cellOf] at hc
     | pwa tv =>
       simp only [hst, Except.ok.injEq, Prod.mk.injEq] at h
       obtain ⟨rfl, rfl⟩ := h
-      refine ⟨?_, rfl, ⟨?_, ?_⟩⟩
+      refine ⟨?_, Frame.refl _, hone _ _ rfl rfl rfl rfl rfl ?_⟩
       · congr 1
-        cases o; simp_all [absObj]
-      · intro i x cc hi hc
-        cases i with
-        | zero => simp at hi; subst hi; simp [cellOf] at hc
-        | succ k => simp at hi
-      · intro i j oi oj cc hi hj _ _
-        cases i with
-        | zero => cases j with
-          | zero => rfl
-          | succ k => simp at hj
-        | succ k => simp at hi
+        cases o; simp_all [absObj, Heap.pts]
+      · intro cc hc; simp [cellOf] at hc
 
 /-- PROPERTY clause 2, closed form: construct an alignment of any class with any options on the caller's
 point sets, then run **any** program of `set_target`s (to any of the caller's point sets, accepted or
 rejected) and `copy`s on it and on its copies: no point set of the caller is ever written, and every
 object — original or copy, whenever the copy was taken — is the fresh alignment to its own current target. -/
 theorem retarget_frame_and_copies (e : Ext Pts A) (c : Cls) (op : Opts) (hp : Heap Pts) (sr tr : Nat)
-    (hp' : Heap Pts) (ho : HObj A) (h : hBuild fixed e c op hp sr tr = .ok (hp', ho)) (ops : List Op) :
-    (hRun e (hp', [ho]) ops).1.pts = hp.pts ∧
+    (hpcs : ∀ r, r < hp.nextPc → hp.pc r < hp.nextArr) (hsr : sr < hp.nextPc) (htr : tr < hp.nextPc)
+    (hp' : Heap Pts) (ho : HObj A) (h : hBuild fixed e c op hp sr tr = .ok (hp', ho)) (ops : List Op)
+    (hok : ∀ o ∈ ops, OpOK hp o) (hne : ∀ o ∈ ops, NoEdit o) :
+    Frame hp (hRun e (hp', [ho]) ops).1 ∧
     ∀ o ∈ (hRun e (hp', [ho]) ops).2, IsFresh e (absObj (hRun e (hp', [ho]) ops).1 o) := by
-  obtain ⟨hb, hpts, hwf⟩ := hBuild_spec fixed e c op hp sr tr (fixed_sound c op) hp' ho h
+  obtain ⟨hb, hfr, hwf⟩ := hBuild_spec fixed e c op hp sr tr (fixed_sound c op) hpcs hsr htr hp' ho h
   have hfresh : ∀ o ∈ [ho], IsFresh e (absObj hp' o) := by
     intro o ho'
     simp only [List.mem_singleton] at ho'; subst ho'
     have ht := (build_target fixed e c op _ _ _ (fixed_sound c op) hb).1
     exact ⟨c, op, hp.pts sr, by rw [ht]; exact hb⟩
-  obtain ⟨h1, h2⟩ := copies_evolve_independently e ops (hp', [ho]) hwf hfresh
-  exact ⟨h1.trans hpts, h2⟩
+  obtain ⟨h1, h2⟩ := copies_evolve_independently e ops (hp', [ho]) hwf
+    (fun o ho => OpOK_mono hfr o (hok o ho)) hne hfresh
+  exact ⟨hfr.trans h1, h2⟩
 
-
+/-- PROPERTY clause 1 on the heap, closed form ("whatever happened before", aliasing included).  Construct an
+alignment of any class with any options on two of the caller's `PointCloud`s; let **anything** legal happen —
+`set_target`s with any of the caller's objects (the source object, the object already held, objects sharing
+one array), copies, `set_target`s on the copies, `from_vector_inplace` / compositions, the caller
+overwriting the coordinates of any of its point sets that is not a source — and then call
+`objs[i].set_target(pcs[r])` on any object, original or copy, with a point set of the right shape: that
+object is the freshly constructed alignment to the coordinates `pcs[r]` has at that moment. -/
+theorem retarget_eq_rebuild_heap (e : Ext Pts A) (c : Cls) (op : Opts) (hp : Heap Pts) (sr tr : Nat)
+    (hpcs : ∀ r, r < hp.nextPc → hp.pc r < hp.nextArr) (hsr : sr < hp.nextPc) (htr : tr < hp.nextPc)
+    (hp' : Heap Pts) (ho : HObj A) (h : hBuild fixed e c op hp sr tr = .ok (hp', ho))
+    (acts : List (Act Pts)) (hl : LegalRun e (hp', [ho]) acts) (i r : Nat) (o : HObj A)
+    (hget : (aRun e (hp', [ho]) acts).2[i]? = some o) (hr : r < (aRun e (hp', [ho]) acts).1.nextPc)
+    (hsh : SameShape e ((aRun e (hp', [ho]) acts).1.pts r) (absObj (aRun e (hp', [ho]) acts).1 o).target) :
+    ∃ o', (hStep e (aRun e (hp', [ho]) acts) (.setTarget i r)).2[i]? = some o' ∧
+      IsFresh e (absObj (hStep e (aRun e (hp', [ho]) acts) (.setTarget i r)).1 o') ∧
+      (absObj (hStep e (aRun e (hp', [ho]) acts) (.setTarget i r)).1 o').target =
+        (aRun e (hp', [ho]) acts).1.pts r := by
+  obtain ⟨hb, _, hwf⟩ := hBuild_spec fixed e c op hp sr tr (fixed_sound c op) hpcs hsr htr hp' ho h
+  have hbase : AllBase e hp' [ho] := by
+    intro x hx
+    simp only [List.mem_singleton] at hx; subst hx
+    exact ⟨c, op, _, base_of_build e c op _ _ _ hb⟩
+  obtain ⟨o', h1, h2, h3, _⟩ := set_target_after_anything e (hp', [ho]) acts hwf hbase hl i r o hget hr hsh
+  exact ⟨o', h1, h2, h3⟩
 
 /-! ### witnesses on concrete data (replayed on the real code by the harness, case `witness`) and
 non-vacuity examples.  Point sets: `S` the square (±1, ±1); `T0 = S`; `T1` = S turned by 90° and doubled;
@@ -922,7 +270,9 @@ example : SameShape W wT5 wT0 := by unfold SameShape; decide
 
 /-! non-vacuity of the heap lemma: build a translation alignment, copy it, retarget the original to `T5`
 and the copy to `T1`; each holds its own fit although both matrices were written in place -/
-def wHeap : Heap DP := { mats := fun _ => eye, next := 0, pts := fun r => [wS, wT0, wT1, wP3, wP4, wT5].getD r wS }
+def wHeap : Heap DP :=
+  { mats := fun _ => eye, next := 0, arr := fun r => [wS, wT0, wT1, wP3, wP4, wT5].getD r wS, nextArr := 6,
+    pc := fun r => r, nextPc := 6 }
 
 example : ((hBuild fixed W .translation {} wHeap 0 1).toOption.map fun st =>
     let r := hRun W (st.1, [st.2]) [.copy 0, .setTarget 0 5, .setTarget 1 2, .setTarget 1 3]
@@ -939,5 +289,119 @@ example : ((gpa fixed (symExt 4 2) (symGpa []) 5 [0, 1] none true).toOption.map 
     (g.nIterations, g.converged, g.target, g.transforms.map fun o => [o.source, o.target, if o.allowMirror == some true then 1 else 0]))
     = some (6, false, 1005, [[0, 1005, 1], [1, 1005, 1]]) := by decide +kernel
 
+
+
+
+/-! non-vacuity of the aliasing theorems (`retarget_eq_rebuild_heap`, `set_target_after_anything`): the caller
+passes the *same* `PointCloud` again after having overwritten its coordinates; two `PointCloud`s share one
+array; the construction-time target object is edited and passed to `set_target`.  `wHeapA`: point sets 1 and 6
+share array 1. -/
+def wHeapA : Heap DP :=
+  { mats := fun _ => eye, next := 0, arr := fun r => [wS, wT0, wT1, wP3, wP4, wT5].getD r wS, nextArr := 6,
+    pc := fun r => if r = 6 then 1 else r, nextPc := 7 }
+
+/-- stale, then rebuilt: the construction-time target object (point set 1) gets the coordinates of `T5` written
+in place — the alignment shows the new coordinates with its old fit — and `set_target` with the **same
+object** re-fits to them -/
+example : ((hBuild fixed W .translation {} wHeapA 0 1).toOption.map fun st =>
+    let r1 := aRun W (st.1, [st.2]) [.write 1 wT5]
+    let r2 := aRun W (st.1, [st.2]) [.write 1 wT5, .op (.setTarget 0 1)]
+    (r1.2.map fun o => ((absObj r1.1 o).target.id, stateEntries 2 (absObj r1.1 o)),
+     r2.2.map fun o => ((absObj r2.1 o).target.id, stateEntries 2 (absObj r2.1 o))))
+    = some ([(5, [[1, 0, 0], [0, 1, 0], [0, 0, 1]])], [(5, [[1, 0, 1/4], [0, 1, 0], [0, 0, 1]])]) := by
+  decide +kernel
+
+/-- the write arrives through an aliasing `PointCloud` (6 shares its array with 1); a TPS copy owns its own
+target object and does not see it, a homogeneous copy shares the object and does -/
+example : ((hBuild fixed W .translation {} wHeapA 0 1).toOption.map fun st =>
+    let r := aRun W (st.1, [st.2]) [.op (.copy 0), .write 6 wT5, .op (.setTarget 1 6)]
+    r.2.map fun o => ((absObj r.1 o).target.id, stateEntries 2 (absObj r.1 o)))
+    = some [(5, [[1, 0, 0], [0, 1, 0], [0, 0, 1]]), (5, [[1, 0, 1/4], [0, 1, 0], [0, 0, 1]])] := by
+  decide +kernel
+example : ((hBuild fixed W .tps {} wHeapA 0 1).toOption.map fun st =>
+    let r := aRun W (st.1, [st.2]) [.op (.copy 0), .write 6 wT5, .op (.setTarget 0 1)]
+    r.2.map fun o => ((absObj r.1 o).target.id, stateDescr (absObj r.1 o)))
+    = some [(5, "tps L(k0,p0) C(L(k0,p0),1/10000,p5)"), (1, "tps L(k0,p0) C(L(k0,p0),1/10000,p1)")] := by
+  decide +kernel
+
+/-- non-vacuity of `set_target_erases_history`: `from_vector_inplace` on a translation alignment, then a
+composition with a translation, then the caller moves the (new) target, then `set_target(T5)` -/
+def wShift : Mat := fun i j => if i = j then 1 else if j = 2 ∧ i < 2 then 3 else 0
+example : ClassShaped .translation 2 wShift := by
+  intro i j h; simp only [wShift, eye]
+  by_cases hij : i = j
+  · simp [hij]
+  · simp only [hij, if_false]; split
+    · rename_i hh; exact absurd hh h
+    · rfl
+example : ((build fixed W .translation {} wS wT0).toOption.map fun o =>
+    (stateEntries 2 (vHistory W o [.edit .fromVector wShift, .edit .composeAfter wShift]),
+     stateEntries 2 (vHistory W o [.edit .fromVector wShift, .edit .composeAfter wShift, .targetMoved wT1, .set wT5])))
+    = some ([[1, 0, 6], [0, 1, 6], [0, 0, 1]], [[1, 0, 1/4], [0, 1, 0], [0, 0, 1]]) := by decide +kernel
+
+/-- the heap runs the same edits: the rotation alignment's in-place block write and the affine alignment's
+re-binding; both re-sync their target to a *new* `PointCloud` (7) holding the aligned source (value 1000) -/
+example : ((hBuild fixed W .rotation {} wHeapA 0 1).toOption.map fun st =>
+    let r := aRun W (st.1, [st.2]) [.op (.copy 0), .op (.edit 0 .fromVector wShift), .op (.setTarget 1 2)]
+    r.2.map fun o => (o.target, (absObj r.1 o).target.id, stateEntries 2 (absObj r.1 o)))
+    = some [(7, 1000, [[1, 0, 0], [0, 1, 0], [0, 0, 1]]), (2, 2, [[0, -1, 0], [1, 0, 0], [0, 0, 1]])] := by
+  decide +kernel
+
+/-! non-vacuity of `retarget_state_function`: two translation alignments with different first targets and
+different histories, same last target -/
+example : ((build fixed W .translation {} wS wT0).toOption.bind fun o =>
+    (build fixed W .translation {} wS wT1).toOption.map fun o' =>
+      (stateEntries 2 (history W o ([wT1, wP3] ++ [wT5])), stateEntries 2 (history W o' ([] ++ [wT5]))))
+    = some ([[1, 0, 1/4], [0, 1, 0], [0, 0, 1]], [[1, 0, 1/4], [0, 1, 0], [0, 0, 1]]) := by decide +kernel
+
+/-! the regenerated table's row format is satisfiable and discriminating: a row that reads a
+construction-time-only attribute, or writes one the model does not, is rejected -/
+example : RWRow.ok ⟨"AlignmentTranslation", .translation, "", ["_target", "_source", "_h_matrix"],
+    ["_target", "_h_matrix"], ["_h_matrix"], ["_h_matrix", "_source", "_target"]⟩ = true := by decide
+example : RWRow.ok ⟨"ThinPlateSplines", .tps, "", ["_target", "l", "min_singular_val", "k"],
+    ["_target", "v", "y", "coefficients"], [], ["_source", "_target", "coefficients", "k", "kernel", "l",
+    "min_singular_val", "p", "v", "y"]⟩ = false := by decide
+example : RWRow.ok ⟨"ThinPlateSplines", .tps, "", ["_target", "l", "min_singular_val"],
+    ["_target", "v", "y", "coefficients"], ["v"], ["_source", "_target", "coefficients", "k", "kernel", "l",
+    "min_singular_val", "p", "v", "y"]⟩ = false := by decide
+
+/-! non-vacuity of the hypotheses of the heap theorems: a legal run with a caller write on the construction-time
+target object and a `set_target` with that same object -/
+example : ∃ st, hBuild fixed W .translation {} wHeapA 0 1 = .ok st ∧
+    LegalRun W (st.1, [st.2]) [.write 1 wT5, .op (.setTarget 0 1)] := by
+  refine ⟨_, rfl, ⟨?_, ?_⟩, ?_, trivial⟩
+  · decide
+  · intro o ho
+    simp only [List.mem_singleton] at ho
+    subst ho
+    decide
+  · show (1 : Nat) < (hWrite W _ 1 wT5).nextPc
+    unfold hWrite; split <;> decide
+
+/-! non-vacuity of `CtorAgree` (hypothesis of `retarget_state_function`): any constructed object against itself
+after any history — different fitted state, different target, same construction-time part -/
+example (o : Obj DP String) (hb : build fixed W .translation {} wS wT0 = .ok o) :
+    CtorAgree W (history W o [wT1, wP3, wT5]) o :=
+  ctorAgree_history W _ o (build_kinded fixed W .translation {} wS wT0 o hb)
+
+/-! non-vacuity of `pinv_then_set_target`: the inverse of a translation alignment (matrix: last column negated),
+retargeted, is the fresh alignment *from the old target* (the table `wTable` holds fits from `S` only: the
+examples show that source and target are swapped and which fit call is made, not its numbers) -/
+def wNeg : Mat → Mat := fun h i j => if j = 2 ∧ i < 2 then - h i j else h i j
+example : ∀ h, ClassShaped .translation 2 h → ClassShaped .translation 2 (wNeg h) := by
+  intro h hs i j hn; simp only [wNeg, hn, if_false]; exact hs i j hn
+example : ((build fixed W .translation {} wS wT5).toOption.map fun o =>
+    ((pinv W wNeg o).source.id, (pinv W wNeg o).target.id, stateEntries 2 (pinv W wNeg o)))
+    = some (5, 0, [[1, 0, -1/4], [0, 1, 0], [0, 0, 1]]) := by decide +kernel
+example : ((build fixed W .translation {} wS wT5).toOption.map fun o =>
+    ((step W (pinv W wNeg o) wT1).source.id, (step W (pinv W wNeg o) wT1).target.id,
+     stateEntries 2 (step W (pinv W wNeg o) wT1)))
+    = some (5, 2, [[1, 0, 0], [0, 1, 0], [0, 0, 1]]) := by decide +kernel
+
+/-! non-vacuity of the fresh-iteration theorem: the run above, through `refGpa` -/
+example : (refGpa fixed (symExt 4 2) (symGpa [false, false, true]) { rotation := true, allowMirror := false }
+    1000 [0, 1, 2] 100 1000 1).toOption = some (1002, 3, true) := by decide +kernel
+example : (refGpa fixed (symExt 4 2) (symGpa []) { rotation := true, allowMirror := true }
+    1000 [0, 1] 5 1000 1).toOption = some (1005, 6, false) := by decide +kernel
 
 end MenpoModel.C08
